@@ -274,6 +274,7 @@ func checkC01(c *Ctx) {
 	// ---- C01.once ----
 	checkC01ByteSlice(c)
 	checkC01SelectBind(c)
+	checkC01JoinConds(c)
 	ro := c.Rule("C01.once", "ONCE(loop over a value slice, AddVar); empty-slice arms write NULL or bind nil", 8)
 	for _, f := range p.FuncsOf(pkgClause, pkgGorm) {
 		root := rootFunc(f)
